@@ -120,9 +120,10 @@ template<class T> struct VoObj : Obj {
   Bytes ser(unsigned h) { return to_bytes(sk.serialize(h, SD())); }
   Bytes ser_stream() { std::ostringstream os; sk.serialize(os, SD()); std::string s = os.str(); return Bytes(s.begin(), s.end()); }
   long advertised_size() { return (long)sk.get_serialized_size_bytes(SD()); }
-  size_t ncont() { return 3; }
-  std::string cont_name(size_t i) { return i == 0 ? "update(light)" : i == 1 ? "update(heavy)" : "update x9"; }
-  void cont(size_t i) { if (i == 0) sk.update(Gen<T>::make(next++), 1.0); else if (i == 1) sk.update(Gen<T>::make(next++), 1000.0); else for (int j = 0; j < 9; ++j) sk.update(Gen<T>::make(next++), 1.0 + j); }
+  size_t ncont() { return 4; }
+  std::string cont_name(size_t i) { return i == 0 ? "update(light)" : i == 1 ? "update(heavy)" : i == 2 ? "update x9" : "reset, update x (k+3)"; }
+  void cont(size_t i) { if (i == 0) sk.update(Gen<T>::make(next++), 1.0); else if (i == 1) sk.update(Gen<T>::make(next++), 1000.0); else if (i == 2) for (int j = 0; j < 9; ++j) sk.update(Gen<T>::make(next++), 1.0 + j);
+    else { sk.reset(); const int m = (int)std::min<uint32_t>(sk.get_k(), 600) + 3; for (int j = 0; j < m; ++j) sk.update(Gen<T>::make(next++), 1.0 + j % 5); } }   // a restored object must take a reset like any other
 };
 template<class T> void register_varopt(const std::string& tname) {
   typedef VoObj<T> O; typedef typename O::Sk Sk; typedef typename O::SD SD;
@@ -195,9 +196,9 @@ template<class T> struct EbObj : Obj {
   Bytes ser(unsigned h) { return to_bytes(sk.serialize(h, SD())); }
   Bytes ser_stream() { std::ostringstream os; sk.serialize(os, SD()); std::string s = os.str(); return Bytes(s.begin(), s.end()); }
   long advertised_size() { return (long)sk.get_serialized_size_bytes(SD()); }
-  size_t ncont() { return 2; }
-  std::string cont_name(size_t i) { return i == 0 ? "update x4" : "merge(operand)"; }
-  void cont(size_t i) { if (i == 0) for (int j = 0; j < 4; ++j) sk.update(Gen<T>::make(next++), 1.0 + j); else { Sk o(3, mc::TrackAlloc<T>(1)); for (int j = 0; j < 6; ++j) o.update(Gen<T>::make(300 + j), 2.0); sk.merge(o); } }
+  size_t ncont() { return 3; }
+  std::string cont_name(size_t i) { return i == 0 ? "update x4" : i == 1 ? "merge(operand)" : "reset, update x6"; }
+  void cont(size_t i) { if (i == 0) for (int j = 0; j < 4; ++j) sk.update(Gen<T>::make(next++), 1.0 + j); else if (i == 2) { sk.reset(); for (int j = 0; j < 6; ++j) sk.update(Gen<T>::make(next++), 1.0 + j % 2); } else { Sk o(3, mc::TrackAlloc<T>(1)); for (int j = 0; j < 6; ++j) o.update(Gen<T>::make(300 + j), 2.0); sk.merge(o); } }
 };
 template<class T> void register_ebpps(const std::string& tname) {
   typedef EbObj<T> O; typedef typename O::Sk Sk; typedef typename O::SD SD;
@@ -289,10 +290,11 @@ struct BloomObj : Obj {
   Bytes ser(unsigned h) { return to_bytes(bf.serialize(h)); }
   Bytes ser_stream() { std::ostringstream os; bf.serialize(os); std::string s = os.str(); return Bytes(s.begin(), s.end()); }
   long advertised_size() { return (long)bf.get_serialized_size_bytes(); }
-  size_t ncont() { return bf.is_read_only() ? 0 : 3; }
-  std::string cont_name(size_t i) { return i == 0 ? "update x4" : i == 1 ? "invert" : "union(operand)"; }
+  size_t ncont() { return bf.is_read_only() ? 0 : 4; }
+  std::string cont_name(size_t i) { return i == 0 ? "update x4" : i == 1 ? "invert" : i == 2 ? "union(operand)" : "reset, update x3"; }
   void cont(size_t i) {
-    if (i == 0) { for (int j = 0; j < 4; ++j) bf.update((uint64_t)(100 + j)); bf.update(std::string("abc")); }
+    if (i == 3) { bf.reset(); for (int j = 0; j < 3; ++j) bf.update((uint64_t)(300 + j)); }
+    else if (i == 0) { for (int j = 0; j < 4; ++j) bf.update((uint64_t)(100 + j)); bf.update(std::string("abc")); }
     else if (i == 1) bf.invert();
     else { Bloom o = Bloom::builder::create_by_size(bf.get_capacity(), bf.get_num_hashes(), bf.get_seed(), mc::TrackAlloc<uint8_t>(1)); for (int j = 0; j < 6; ++j) o.update((uint64_t)(j * 5)); bf.union_with(o); }
   }
